@@ -151,13 +151,18 @@ void RpcChannel::DescriptorReady() {
 
     if (version != PROTOCOL_VERSION) {
       OLA_WARN << "protocol mismatch " << version << " != " <<
-        PROTOCOL_VERSION;
+        PROTOCOL_VERSION << ", closing";
+      // We can't make sense of the rest of the stream. Don't stay in the
+      // 'reading a message' state with a buffer that was never sized for it.
+      m_expected_size = 0;
+      m_descriptor->Close();
       return;
     }
 
     if (m_expected_size > MAX_BUFFER_SIZE) {
       OLA_WARN << "Incoming message size " << m_expected_size
                 << " is larger than MAX_BUFFER_SIZE: " << MAX_BUFFER_SIZE;
+      m_expected_size = 0;
       m_descriptor->Close();
       return;
     }
@@ -167,7 +172,9 @@ void RpcChannel::DescriptorReady() {
 
     if (m_buffer_size < m_expected_size) {
       OLA_WARN << "buffer size too small: " << m_buffer_size << " < " <<
-        m_expected_size;
+        m_expected_size << ", closing";
+      m_expected_size = 0;
+      m_descriptor->Close();
       return;
     }
   }
